@@ -7,7 +7,7 @@ import itertools, re
 class Check(RuntimeCheck):
     prop = 'C07'
     design_ref = 'DESIGN.md §4.3, §5 C07'
-    theorems = ['C07_unmentioned', 'C07_unmatched', 'C07_never_fabricates', 'C07_continuations', 'respond_ret_mem']
+    theorems = ['C07_unmentioned', 'C07_unmatched', 'C07_never_fabricates', 'C07_continuations', 'respond_ret_mem', 'C07_source_no_mocker_tree', 'C07_source_no_match_tree', 'C07_source_unmentioned', 'C07_source_all_reject']
 
     def extra(self, rep, tier, seed):
         # which continuation arms (#[unimock] output) a fall-through can reach: compared with the code-generation model for the whole shape family, plus the compiled fall-through cases
